@@ -43,9 +43,14 @@ fn check_dfa(acc: &mut Acc, dfa: &DFA, owner: &DFA, what: &str, text: &str) {
                         .or_default()
                         .push((format!("{literal} {:?} (level {fallback_level})", description.map(|d| d.to_string())), *to));
                 }
-                Inp::Command { cmd, fallback_level } | Inp::Compadd { cmd, fallback_level } => {
+                Inp::Command { cmd, fallback_level } => {
                     // one command = one set of words it produces, whatever the level
                     lit.entry(format!("{{{{{{ {cmd} }}}}}}")).or_default().push((format!("command {cmd:?} (level {fallback_level})"), *to));
+                }
+                Inp::Compadd { cmd, fallback_level } => {
+                    // a zsh completer that calls compadd: its words are what it hands to compadd,
+                    // not what a command of the same text prints, so it is a reading of its own
+                    lit.entry(format!("{{{{{{ {cmd} }}}}}}compadd")).or_default().push((format!("compadd command {cmd:?} (level {fallback_level})"), *to));
                 }
                 Inp::Subword { subdfa, .. } => {
                     let sub = owner.subdfas.verif_lookup(*subdfa);
